@@ -24,6 +24,36 @@ Fixpoint tree_wf (s : src) : bool :=
   | SCached _ inner => tree_wf inner
   end.
 
+(* K3: a ReplaceSource with >= 1 replacement whose inner subtree contains a map-driven node
+   (SourceMapSource, CachedSource) with non-ASCII output text: byte columns vs char cuts *)
+Fixpoint has_mapdriven_nonascii (s : src) : bool :=
+  match s with
+  | SMapped v _ _ _ _ _ => negb (ascii v)
+  | SCached _ inner => negb (ascii (source inner)) || has_mapdriven_nonascii inner
+  | SConcat cs => existsb has_mapdriven_nonascii cs
+  | SReplace inner _ => has_mapdriven_nonascii inner
+  | _ => false
+  end.
+Fixpoint k3_shape (s : src) : bool :=
+  match s with
+  | SReplace inner rs => (negb (is_nil rs) && has_mapdriven_nonascii inner) || k3_shape inner
+  | SConcat cs => existsb k3_shape cs
+  | SCached _ inner => k3_shape inner
+  | _ => false
+  end.
+
+(* K4: some SourceMapSource map decodes to segments that go backwards *)
+Fixpoint k4_shape (s : src) : bool :=
+  match s with
+  | SMapped _ _ m _ inner _ =>
+    negb (sorted_by pos_le (decode_mappings (sm_mappings m)))
+    || match inner with Some im => negb (sorted_by pos_le (decode_mappings (sm_mappings im))) | None => false end
+  | SConcat cs => existsb k4_shape cs
+  | SReplace inner _ => k4_shape inner
+  | SCached _ inner => k4_shape inner
+  | _ => false
+  end.
+
 (* ---------- C01 ---------- *)
 Fixpoint all_some (l : list (option text)) : option (list text) :=
   match l with
